@@ -1268,3 +1268,32 @@ Proof.
     specialize (H _ Hin). cbn in H. discriminate.
   - intros q Hin. specialize (H _ Hin). cbn in H. lia.
 Qed.
+
+(* ------------------------------------------------------------------------------------------ *)
+(** * Inbound traffic never touches the keepalive state *)
+
+(* Connection.ack (inbound DATA consumed, WINDOW_UPDATE sent) changes nothing ... *)
+Lemma acked_is_inert c s : step c s Acked = (s, [(now s, IRecv)]).
+Proof. reflexivity. Qed.
+
+(* ... and its log item does not count as data sent: any stretch of the log made of anything but
+   data/headers SENT -- acknowledgements of inbound data included, however many -- holds at most
+   max_pings_without_data PINGs *)
+Lemma recv_is_not_data t : is_data (t, IRecv) = false.
+Proof. reflexivity. Qed.
+
+(* every statement of grpclib that writes one of the keepalive variables: the counter is written by
+   _ping (+1), headers_send_process (0) and data_send_process (0) and by nothing else *)
+Lemma writers_exact :
+  keepalive_writers =
+  [ (s2z "ping_count_in_sequence",
+     [(s2z "protocol:Connection._ping", s2z "inc");
+      (s2z "protocol:Connection.headers_send_process", s2z "zero");
+      (s2z "protocol:Connection.data_send_process", s2z "zero")]);
+    (s2z "last_ping_sent", [(s2z "protocol:Connection._ping", s2z "now")]);
+    (s2z "_ping_handle",
+     [(s2z "protocol:Connection.initialize", s2z "arm"); (s2z "protocol:Connection._ping", s2z "arm")]);
+    (s2z "_close_by_ping_handler",
+     [(s2z "protocol:Connection._ping", s2z "arm");
+      (s2z "protocol:Connection.ping_ack_process", s2z "none")]) ].
+Proof. vm_compute. reflexivity. Qed.
